@@ -30,7 +30,7 @@ BIT_CONV = [("verify", "bit.to_int"), ("verify", "bit.from_int")]
 BIT_CONV_STUB = [("stub", "bit.to_int"), ("stub", "bit.from_int")]
 
 BVF_CORE = ["bvf.new", "bvf.into_inner", "bvf.capacity", "bvf.cfbl", "bvf.mod2n", "bvf.with_capacity", "bvf.zeros", "bvf.ones",
-            "bvf.len", "bvf.get", "bvf.set"]
+            "bvf.len", "bvf.get", "bvf.set", "bvf.push", "bvf.pop", "bvf.resize"]
 
 GROUPS["bvf_core"] = G("bvf_core", WORD_PRELUDE + ["bvf.rs"],
     BASE_DECLS + stub_int() + BIT_CONV + [("decl", "bvf.consts")] + [("verify", u) for u in BVF_CORE])
